@@ -141,8 +141,8 @@ _KERNELS = ('int_prim', 'int_add', 'int_mul', 'int_mul_simple', 'int_shift', 'in
 _c16_quick = [x for x in _all_verus if x.endswith(('_panic', '_zero', '_inf')) or x in _KERNELS or x in (
     'int_div_simple', 'int_add_ops', 'int_div_ops', 'float_round', 'float_repr_round', 'ratio_reduce', 'ratio_ops')]
 _UNITS.setdefault('C16', {})
-_UNITS['C16']['verus'] = _c16_quick
-_UNITS['C16']['verus_thorough'] = [x for x in _all_verus if x not in _c16_quick]
+_UNITS['C16']['verus'] = list(_all_verus)          # every unit: each proof includes panic-freedom + termination
+_UNITS['C16']['verus_thorough'] = []
 _w32 = [x for x in _all_verus if VERUS[x].get('w32')]
 _UNITS.setdefault('C19', {})
 _UNITS['C19']['verus'] = [x for x in _KERNELS if x in _w32]
